@@ -27,6 +27,7 @@ type c01Spec struct {
 	Shape string `json:"shape"`           // b1 b2 b16 ramp rand: how the list is cut into back-to-back bursts; conc: concurrent sender goroutines
 	API   string `json:"api"`             // bytes: Send/Recv on cooked ends; msg: SendMsg/RecvMsg
 	Sizes []int  `json:"sizes"`           // body lengths in send order (replies of req/rep patterns use the list reversed)
+	Chop  bool   `json:"chop,omitempty"`  // the connection runs through hx.ChopRelay: both byte streams arrive re-segmented into PRNG-sized pieces
 }
 
 const mib = 1 << 20
@@ -100,7 +101,13 @@ func c01Cases(r *mon.Runner) []mon.CaseSpec {
 	rnd := r.Rand()
 	var cases []mon.CaseSpec
 	add := func(sp c01Spec) {
-		cases = append(cases, mon.CaseSpec{Name: sp.Tr + "/" + sp.Pat + "/" + sp.Mode + "/" + sp.Set, Spec: sp})
+		// every fourth case over a stream transport goes through the re-segmenting relay
+		sp.Chop = sp.Tr != "inproc" && len(cases)%4 == 1
+		name := sp.Tr + "/" + sp.Pat + "/" + sp.Mode + "/" + sp.Set
+		if sp.Chop {
+			name += "/chop"
+		}
+		cases = append(cases, mon.CaseSpec{Name: name, Spec: sp})
 	}
 	base := func(tr, pat, mode string) c01Spec {
 		return c01Spec{Tr: tr, Pat: pat, Mode: mode, Flip: rnd.Intn(2) == 0,
